@@ -200,12 +200,25 @@ Permute(perm) ==
     /\ last' = [op |-> "permute_sites", perm |-> perm]
     /\ Step(last' @@ [nfac |-> <<1, 1>>])
 
-\* add(other, alpha, beta): alpha |self> + beta |other>, norms included; through canonical_form(renormalize=False)
+\* a second state on the same sites for binary operations (add, overlap, MPSEnvironment): same bond dimensions; with
+\* conserved charges the same selection rule, but all bond charges shifted by `sh` -- a different, equally valid gauge of
+\* the charges (the outer virtual legs differ, the implementation has to re-gauge a COPY of the operand)
+OtherRep(Rr, v, sh) ==
+    LET n == NL(Rr)
+        chis == [b \in 1..(n + 1) |-> Len(Rr.S[b])]
+        f == FormPat(3 + 2 * v, n)
+    IN IF Rr.cons = "none" THEN MkRepChis(Rr.bc, Rr.kinds, chis, "none", f, v + 2, TRUE)
+       ELSE LET Gm == GenB(Rr.kinds, Rr.cons, chis, Rr.qb, v + 2, TRUE)
+            IN [Rr EXCEPT !.form = f,
+                          !.B = [i \in 1..n |-> ScaleB(Gm[i], Rr.S[i], Rr.S[i + 1], Nu2(f[i])[1], Nu2(f[i])[2])],
+                          !.qb = [b \in 1..(n + 1) |-> [k \in 1..Len(Rr.qb[b]) |-> QNorm(Rr.qb[b][k] + sh, Rr.cons)]]]
+
+\* add(other, alpha, beta): alpha |self> + beta |other>, norms included; through canonical_form(renormalize=False);
+\* the operands do not change
 Coefs == {<<GOne, GOne>>, <<GOne, <<-1, 0>>>>, <<<<2, 0>>, GI>>, <<<<0, -1>>, <<3, 0>>>>}
 Add(cf, v, n2) ==
-    /\ Live /\ "add" \in Ops /\ R.known /\ mode = "raw" /\ ~Inf(R) /\ NL(R) >= 2 /\ R.cons = "none" /\ cf \in Coefs
-    /\ LET chis == [b \in 1..(NL(R) + 1) |-> Len(R.S[b])]
-           R2 == MkRepChis(R.bc, R.kinds, chis, "none", FormPat(3 + 2 * v, NL(R)), v + 2, TRUE)
+    /\ Live /\ "add" \in Ops /\ R.known /\ mode = "raw" /\ ~Inf(R) /\ NL(R) >= 2 /\ cf \in Coefs
+    /\ LET R2 == OtherRep(R, v, v)
            P2 == Contract(R2)
            P1 == TAdd(TScale(GMul(cf[1], GInt(nrm)), psi), TScale(GMul(cf[2], GInt(n2)), P2))
        IN /\ ~TIsZero(P2) /\ ~TIsZero(P1) /\ AbsLE(P1, 400)
